@@ -19,10 +19,24 @@ def _shape_key(plan: dict[str, Any], extra: str = "") -> str:
             r = op["recipe"]
             k += ":" + str(r.get("kind")) + ":" + str(r.get("sp", r.get("template", "")))
         kinds.append(k)
-    return "|".join([cfg["semiring"], str(cfg["fold"]), str(cfg["optimize"]), ",".join(kinds), extra])
+    return "|".join([cfg["semiring"], str(cfg["fold"]), str(cfg["optimize"]),
+                     str(cfg.get("dtype", "float64")), ",".join(kinds), extra])
 
 
 def run(plan: dict[str, Any], tr: Trace) -> dict[str, Any]:
+    import torch
+
+    if plan["config"].get("dtype") == "float32":
+        # single precision (the library's default) as a swarm member: only C12 asks for it
+        torch.set_default_dtype(torch.float32)
+        try:
+            return _run(plan, tr)
+        finally:
+            torch.set_default_dtype(torch.float64)
+    return _run(plan, tr)
+
+
+def _run(plan: dict[str, Any], tr: Trace) -> dict[str, Any]:
     prop = plan["prop"]
     w = WorldA(plan, tr)
     if prop == "C12":
